@@ -402,8 +402,50 @@ static void op_polyagg(const McArg *a) {
     flush();
 }
 // malformed cell sets
+// sets whose outlines have unusual loop structure (all loops clockwise, loops around the poles, the whole globe with holes): the hole /
+// outer-loop bookkeeping of the multipolygon normaliser on its failure paths
+static void op_setglobal(int kind, int res) {
+    U64Vec s = {0};
+    LatLng np = {M_PI / 2, 0}, sp = {-M_PI / 2, 0};
+    uint64_t hn = 0, hs = 0;
+    latLngToCell(&np, res, &hn);
+    latLngToCell(&sp, res, &hs);
+    if (kind == 100) uv_push(&s, hn), uv_push(&s, hs);                       // both pole cells
+    if (kind == 101 || kind == 102) {                                         // pole cells + their rings
+        uint64_t ring[7] = {0};
+        gridDisk(hn, 1, ring);
+        for (int i = 0; i < 7; i++)
+            if (ring[i] && (kind == 101 || ring[i] != hn)) uv_push(&s, ring[i]);
+        gridDisk(hs, 1, ring);
+        for (int i = 0; i < 7; i++)
+            if (ring[i] && (kind == 101 || ring[i] != hs)) uv_push(&s, ring[i]);
+    }
+    if (kind >= 103 && kind <= 106 && res <= 1) {                              // the whole grid minus 0 / 1 / 4 separated / many cells
+        U64Vec f = {0};
+        dom_full(res, &f);
+        for (size_t i = 0; i < f.n; i++) {
+            int bc = spec_bc(f.v[i]);
+            int drop = kind == 104 ? i == 20 : kind == 105 ? (res == 0 ? (bc == 20 || bc == 45 || bc == 70 || bc == 95) : (i % 211 == 7)) : kind == 106 ? (i % 9 == 4) : 0;
+            if (!drop) uv_push(&s, f.v[i]);
+        }
+        uv_free(&f);
+    }
+    if (!s.n) return;
+    LinkedGeoPolygon lp;
+    memset(&lp, 0, sizeof lp);
+    uint64_t *in = malloc(s.n * 8);
+    memcpy(in, s.v, s.n * 8);
+    if (CALL(cellsToLinkedMultiPolygon(in, (int)s.n, &lp), "cellsToLinkedMultiPolygon") == 0) destroyLinkedMultiPolygon(&lp);
+    free(in);
+    uv_free(&s);
+    flush();
+}
 static void op_setagg(const McArg *a) {
     int kind = (int)a[0].i, res = (int)a[1].i;
+    if (kind >= 100) {
+        op_setglobal(kind, res);
+        return;
+    }
     int d[15] = {0};
     uint64_t root = spec_mk(res, kind % 2 ? 4 : 20, d);
     U64Vec s = {0};
@@ -492,6 +534,9 @@ static void ph_misc(void *u) {
                 if (mc_mine(idx)) MC_RUN(OP_POLYAGG, I(kind), I(rs[ri]), I(fl[fi]));
     for (int kind = 0; kind < 18; kind++)
         for (int res = 0; res <= 14; res++, idx++)
+            if (mc_mine(idx)) MC_RUN(OP_SETAGG, I(kind), I(res));
+    for (int kind = 100; kind <= 106; kind++)
+        for (int res = 0; res <= 15; res++, idx++)
             if (mc_mine(idx)) MC_RUN(OP_SETAGG, I(kind), I(res));
 }
 // ---- sequence BFS: canonical class of an index value
